@@ -241,10 +241,20 @@ def p_clauses(P, Qt_ref, L, w, stationary, reversible):
             raise Broken("P-detailed-balance", f"P({L}): max |pi_i P_ij - pi_j P_ji| {d:.3e}")
 
 
+@functools.lru_cache(maxsize=64)
+def _cached_spec_Q(states, params, weight, pi_items):
+    pi = dict(pi_items) if weight == "monomer" else numpy.array(pi_items)
+    return S.spec_Q(list(states), dict(params), weight, pi)[0]
+
+
 def named_spec_Q(mid, states, params, pi_reported):
     info = NAMED[mid]
     if info.get("nospec"):
         return None
+    if len(states) > 20:      # 61-state spec matrices are reused across the lengths / expm settings of one configuration
+        wt = info["weight"]
+        items = tuple(sorted(pi_reported[1].items())) if wt == "monomer" else tuple(float(x) for x in pi_reported[0])
+        return _cached_spec_Q(tuple(states), tuple((n, float(v)) for n, v in params), wt, items).copy()
     if info["weight"] == "empirical":
         from cogent3.evolve import models as M
         return S.spec_Q_from_exchangeabilities(getattr(M, mid + "_matrix"), pi_reported[0])[0]
@@ -862,7 +872,6 @@ def gen_discrete(tier, seed):
 
 
 def check_discrete(case):
-    from cogent3.evolve.parameter_controller import InvalidScopeError
     mid, kw, pseed = case
     sm = get_sm(["named", mid, kw])
     lf = sm.make_likelihood_function(_tree())
